@@ -83,18 +83,35 @@ def norm(s: str) -> str:
     return re.sub(r",([)\]])", r"\1", s)  # trailing commas of multi-line calls / tuples
 
 
+def _texts(ctx, node):
+    """normalised source text and normalised unparsed text (the latter is free of comments and of quote style)"""
+    out = {norm(seg(ctx, node))}
+    try:
+        out.add(norm(ast.unparse(node)))
+    except Exception:  # noqa: BLE001
+        pass
+    return out
+
+
+def _norm_key(k):
+    try:
+        return {norm(k), norm(ast.unparse(ast.parse(k, mode="eval").body))}
+    except Exception:  # noqa: BLE001
+        return {norm(k)}
+
+
 def lookup_const(ctx, node):
-    s = norm(seg(ctx, node))
+    s = _texts(ctx, node)
     for k, v in ctx.consts.items():
-        if norm(k) == s:
+        if _norm_key(k) & s:
             return v
     return None
 
 
 def lookup_type(ctx, node):
-    s = norm(seg(ctx, node))
+    s = _texts(ctx, node)
     for k, v in ctx.types.items():
-        if norm(k) == s:
+        if isinstance(k, str) and (_norm_key(k) & s):
             return v
     return None
 
@@ -245,6 +262,9 @@ def expr(ctx: Ctx, e, want=None) -> str:
                 else:
                     s = f"(List.elem {l} {r})"
                 parts.append(s if isinstance(op, ast.In) else f"(!{s})")
+            elif isinstance(op, (ast.Is, ast.IsNot)) and isinstance(right, ast.Constant) and isinstance(right.value, bool) and infer(ctx, left) == "Bool":
+                pos = (right.value is True) == isinstance(op, ast.Is)
+                parts.append(expr(ctx, left) if pos else f"(!{expr(ctx, left)})")
             elif isinstance(op, (ast.Is, ast.IsNot)):
                 lt = infer(ctx, left) or ""
                 if isinstance(right, ast.Constant) and right.value is None and lt.startswith("Option"):
@@ -273,7 +293,7 @@ def expr(ctx: Ctx, e, want=None) -> str:
         w = want or infer(ctx, e)
         return f"(if {expr(ctx, e.test)} then {expr(ctx, e.body, w)} else {expr(ctx, e.orelse, w)})"
     if isinstance(e, (ast.Tuple, ast.List)):
-        if want == "tuple" or (want and "×" in want):
+        if want == "tuple" or (want and top_level_prod(want)):
             return "(" + ", ".join(expr(ctx, x) for x in e.elts) + ")"
         inner = None
         if want and want.startswith("List "):
@@ -336,6 +356,19 @@ def expr(ctx: Ctx, e, want=None) -> str:
         inner = want[5:].strip("()") if want and want.startswith("List ") else None
         return f"(List.map (fun {pat} => {expr(ctx, e.elt, inner)}) {out})"
     raise Untranslatable(f"expr {type(e).__name__}: {seg(ctx, e)}")
+
+
+def top_level_prod(ty: str) -> bool:
+    """does the type have a `×` outside parentheses (i.e. is it a product, not e.g. a list of products)"""
+    depth = 0
+    for ch in ty:
+        if ch == "(":
+            depth += 1
+        elif ch == ")":
+            depth -= 1
+        elif ch == "×" and depth == 0:
+            return True
+    return False
 
 
 def cast(ctx, s, frm, to):
